@@ -244,6 +244,14 @@ def run(ctx):
         tbt = '---- MODULE ThreadBlockList_RA ----\nEXTENDS ThreadBlockList\nOrdX == [OrdCode EXCEPT %s]\n====\n' % chg
         jobs.append(lambda nm=nm, tbt=tbt: tlc_mc(ctx, 'ra_toggle_tbl_' + nm, 'ThreadBlockList_RA', dict(tb_ra, Ord='<-OrdX'), invariants=INV_TBW, view='mcview', constraints=['MsgBound5'],
                                                     workers=3, expect='violation', extra_files={'ThreadBlockList_RA.tla': tbt}, tmo=1200))
+    # ---------------- dynamic hazard-pointer blocks: initialised slots and the plain block->next published by a release store of hp_block
+    hd_ra = RM.hd_consts(Weak=True, NBlocks=1, NCells=2, NObj=3, MaxScans=1)
+    INV_HDW = ['NoDataRace', 'Safe', 'SlotsIntact']
+    jobs.append(lambda: tlc_mc(ctx, 'ra_hpdynamic', 'HPDynamic', hd_ra, invariants=INV_HDW, constraints=['MsgBound5'], workers=4, tmo=1200))
+    for nm, chg in (('publish_rlx', '!.b_pub = "rlx"'), ('block_load_rlx', '!.s_ldb = "rlx"'), ('no_publish_fence', '!.a_fence = "none"')):
+        hdt = '---- MODULE HPDynamic_RA ----\nEXTENDS HPDynamic\nOrdX == [OrdCode EXCEPT %s]\n====\n' % chg
+        jobs.append(lambda nm=nm, hdt=hdt: tlc_mc(ctx, 'ra_toggle_hpdyn_' + nm, 'HPDynamic_RA', dict(hd_ra, Ord='<-OrdX'), invariants=INV_HDW, constraints=['MsgBound5'],
+                                                    workers=3, expect='violation', extra_files={'HPDynamic_RA.tla': hdt}, tmo=1200))
     run_parallel(jobs, maxw=4)
     race_sweep(ctx)
     # A counterexample of the weak-memory model instantiated with the order table EXTRACTED from this tree is reported if the step-level
